@@ -66,10 +66,11 @@ Section Relex.
   Proof.
     unfold p_value_unit. intros H. destruct (p_integer s) as [[d r0]|] eqn:E0; [|discriminate].
     destruct (first_prefix (t_units T) r0) as [[u r1]|] eqn:E1; [|discriminate].
-    destruct (end_expr r1) eqn:EE; [|discriminate]. inversion H; subst; clear H.
+    destruct (end_expr r1) eqn:EE; [|discriminate].
+    destruct (N.leb (dec_val (no_us d)) i64_max) eqn:FIT; [|discriminate]. inversion H; subst; clear H.
     pose proof (p_integer_strict _ _ _ E0) as [_ L0]. pose proof (first_prefix_weak _ _ _ _ E1) as [_ L1].
     unfold xcut. rewrite (p_integer_trunc _ _ _ E0) by lia. rewrite (first_prefix_trunc _ _ _ _ E1) by lia.
-    replace (len s - len r - (len s - len r0) - (len r0 - len r)) with 0 by lia. reflexivity.
+    replace (len s - len r - (len s - len r0) - (len r0 - len r)) with 0 by lia. cbn [firstn end_expr]. rewrite FIT. reflexivity.
   Qed.
 
   Lemma p_line_wrap_loc s k r : p_line_wrap s = Some (k, r) -> p_line_wrap (xcut s r) = Some (k, []).
@@ -745,15 +746,16 @@ Section Relex.
   Lemma lex_loop_nil f pos : lex_loop (S f) pos [] = Some [].
   Proof. cbn [Lexer.lex_loop]. unfold Lexer.p_lex_token. cbn. fold p_token. now rewrite p_token_nil. Qed.
 
-  Lemma lex_single text t0 : text <> [] -> p_lex_token 0 text = Some (t0, []) -> lex text = Some [start_token; t0].
+  Lemma lex_single text t0 : text <> [] -> p_lex_token 0 text = Some (t0, []) -> tok_finite t0 = true ->
+    lex text = Some [start_token; t0].
   Proof.
-    intros NE PL. unfold Lexer.lex. destruct text as [|c x]; [congruence|]. cbn [List.length].
+    intros NE PL FIN. unfold Lexer.lex. destruct text as [|c x]; [congruence|]. cbn [List.length].
     change (lex_loop (S (S (List.length x))) 0 (c :: x)) with
       (match p_lex_token 0 (c :: x) with
        | Some (t, r) => match lex_loop (S (List.length x)) (tend t) r with Some ts => Some (t :: ts) | None => None end
        | None => match skip_ws (c :: x) with [] => Some [] | _ => None end
        end).
-    rewrite PL. now rewrite lex_loop_nil.
+    rewrite PL. rewrite lex_loop_nil. cbn [forallb]. rewrite FIN. reflexivity.
   Qed.
 
   Lemma skip_ws_app_ws g y : forallb is_iws g = true -> skip_ws (g ++ y) = skip_ws y.
@@ -776,7 +778,7 @@ Section Relex.
     lex text = Some [start_token; {| tkind := KRange bl br; tstart := 0; tend := blen text |}].
   Proof.
     intros (g1 & g2 & -> & F1 & F2) B1 B2.
-    apply lex_single; [destruct g1; discriminate|].
+    apply lex_single; [destruct g1; discriminate| |reflexivity].
     match goal with |- ?G => assert (PL : G); [|exact PL] end.
     { unfold Lexer.p_lex_token. rewrite skip_ws_app_ws by exact F1. rewrite skip_ws_cons_nws by reflexivity.
       unfold eat2, eat. rewrite !N.eqb_refl. rewrite skip_ws_all by exact F2. cbn [blen]. rewrite N.sub_0_r, N.add_0_l.
@@ -792,11 +794,12 @@ Section Relex.
   Qed.
 
   Lemma relex_token text r k : p_token (text ++ r) = Some (k, r) -> eat2 46 46 (text ++ r) = None -> hdnws text -> text <> [] ->
-    ~ Known k text -> lex text = Some [start_token; {| tkind := k; tstart := 0; tend := blen text |}].
+    ~ Known k text -> (forall a b, tok_finite {| tkind := k; tstart := a; tend := b |} = true) ->
+    lex text = Some [start_token; {| tkind := k; tstart := 0; tend := blen text |}].
   Proof.
-    intros PT E2 HW NE NK.
+    intros PT E2 HW NE NK FIN.
     pose proof (p_token_loc _ _ _ PT) as LOC. rewrite xcut_app in LOC. specialize (LOC NK).
-    apply lex_single; [exact NE|]. destruct text as [|c x]; [congruence|].
+    apply lex_single; [exact NE| |apply FIN]. destruct text as [|c x]; [congruence|].
     match goal with |- ?G => assert (PL : G); [|exact PL] end.
     { unfold Lexer.p_lex_token. rewrite skip_ws_hdnws by exact HW.
       assert (eat2 46 46 (c :: x) = None) as ->.
@@ -813,14 +816,14 @@ Section Relex.
   Theorem relex_partial s ts' t : lex s = Some (start_token :: ts') -> In t ts' -> ~ KeywordLikeIdent s t ->
     lex (bslice s (tstart t) (tend t)) = Some [start_token; {| tkind := tkind t; tstart := 0; tend := tend t - tstart t |}].
   Proof.
-    unfold Lexer.lex at 1. destruct (lex_loop (S (List.length s)) 0 s) as [ts|] eqn:L; [|discriminate].
-    intros H Hin NK. injection H as ->.
+    intros H Hin NK. apply lex_inv in H as (ts & L & FIN & H). injection H as <-.
+    assert (FT : tok_finite t = true) by (rewrite forallb_forall in FIN; auto).
     destruct (lex_loop_lexed _ _ _ _ L [] eq_refl t Hin) as (p & text & r & E & A & B & NE & D). cbn [app] in E. subst s.
     unfold KeywordLikeIdent in NK. rewrite (bslice_app p text r) in * by assumption.
     replace (tend t - tstart t) with (blen text) by lia.
     destruct D as [(RT & bl & br & K & B1 & B2)|(PT & E2 & HW)].
     - rewrite K. now apply relex_range.
-    - now apply (relex_token text r).
+    - apply (relex_token text r); auto.
   Qed.
 
 End Relex.
